@@ -172,7 +172,8 @@ func readAllSmall(c net.Conn, sizes []int) ([]byte, error) {
 
 func muxScenario(id string, seed uint64) runner.Result {
 	r := &payload.SplitMix{S: seed}
-	readSizes := [][]int{{512}, {1}, {3}, {1, 2, 5}, {7, 64}}[r.Intn(5)]
+	// (a zero-length Read is a legal call on an io.Reader: it reads nothing and loses nothing)
+	readSizes := [][]int{{512}, {1}, {3}, {1, 2, 5}, {7, 64}, {0, 512}, {1, 0, 2}, {0, 0, 3}}[r.Intn(8)]
 	drain := []int{0, 0, 1, 2}[r.Intn(4)]
 	fast := r.Intn(2) == 0
 	plen := []int{1, 4, 8}[r.Intn(3)]
